@@ -68,6 +68,10 @@ func init() {
 		c.p.unwind = int(c.p.asTerm(c.args[0]).Val)
 		return nil, ctlRet
 	})
+	z("MaxDepth", func(c *callCtx) (Value, ctl) {
+		c.p.maxDepth = int(c.p.asTerm(c.args[0]).Val)
+		return nil, ctlRet
+	})
 	z("MaxPreempt", func(c *callCtx) (Value, ctl) {
 		c.p.maxPreempt = int(c.p.asTerm(c.args[0]).Val)
 		return nil, ctlRet
